@@ -1440,25 +1440,31 @@ def loop_source_selectors(body, loop):
 
 
 def errkind_guarded(body, site):
-    """is `site` reached only on the equal edge of a comparison of io::Error::kind() with a constant kind?
-    returns the set of kind names compared (empty = not guarded)"""
-    kinds = set()
-    for (sw, yes, no) in body.control_deps(site):
-        pol = eq_polarity(body, sw)
+    """the io::ErrorKind values under which `site` can be reached: every path from the entry to `site` must take the equal edge of
+    some `err.kind() == <constant kind>` comparison; returns the set of kinds of those comparisons whose equal edge leads to the site
+    (empty set = some path reaches the site without such a comparison)."""
+    edges = []
+    for bi in body.normal_blocks():
+        pol = eq_polarity(body, bi)
         if not pol:
             continue
         eq_t, ne_t, ops = pol
         sl = backward_slice(body, [op_place(o) for o in ops if op_place(o)])
-        if eq_t in yes and ne_t in no and any(c.endswith('std::io::Error::kind') for c in sl.calls):
-            aggs = [x for l in sl.locals for (b2, si, kind, x) in body.defs().get(l, []) if kind == 'assign' and x['r']['k'] == 'agg']
-            for x in aggs:
-                m = re.match(r'Adt:std::io::ErrorKind::(\w+)$', str(x['r']['ak']))
-                if m:
-                    kinds.add(m.group(1))
-            for c in sl.consts:
-                m = re.search(r'ErrorKind::(\w+)', str(c))
-                if m:
-                    kinds.add(m.group(1))
-            if not kinds:
-                kinds.add('?')
+        if not any(c.endswith('std::io::Error::kind') for c in sl.calls):
+            continue
+        ks = set(c['ev'] for c in sl.consts if isinstance(c, dict) and c.get('ev') and 'ErrorKind' in str(c.get('ty', '')))
+        ks |= set(m.group(1) for x in (y for l in sl.locals for y in body.defs().get(l, [])) if x[2] == 'assign' and x[3]['r']['k'] == 'agg'
+                  for m in [re.match(r'Adt:std::io::ErrorKind::(\w+)$', str(x[3]['r']['ak']))] if m)
+        edges.append((bi, eq_t, ks or {'?'}))
+    if not edges:
+        return set()
+    if body.find_path([0], {site}, removed_edges=set((bi, eq_t) for bi, eq_t, _ in edges)) is not None:
+        return set()
+    kinds = set()
+    for bi, eq_t, ks in edges:
+        if site in body.reachable_from([eq_t]) and bi in body.reachable_from([0]):
+            # this comparison's equal edge is one of the ways in (it matters if removing all OTHER such edges still lets the site be reached)
+            others = set((b2, e2) for b2, e2, _ in edges if (b2, e2) != (bi, eq_t))
+            if body.find_path([0], {site}, removed_edges=others) is not None:
+                kinds |= ks
     return kinds
